@@ -840,8 +840,9 @@ where
         } else {
             let next_symbol = symbol + Symbol::one();
             self.symbol = Some(next_symbol);
+            // The right-sided cumulative of `symbol` is the CDF evaluated at the upper end of its bin.
             let non_leaky: Probability = (self.model.quantizer.free_weight
-                * self.model.inner.distribution((symbol).into() - 0.5))
+                * self.model.inner.distribution((symbol).into() + 0.5))
             .as_();
             non_leaky + slack(next_symbol, self.model.quantizer.min_symbol_inclusive)
         };
